@@ -95,13 +95,14 @@ Section Integral.
     intros Hy. unfold mi_init_gen_s_int. rewrite cast_id by (auto; apply Hy). apply mi_reduce_spec; auto.
   Qed.
 
-  (* F: unsigned storage, generic template, integral source T not wider than the storage type:
-     correct whenever |y| is representable in the promoted source type and in the storage type *)
+  (* F (repaired body): unsigned storage, generic template, integral source T: every value of T that fits int64_t
+     and whose magnitude the storage type holds (in particular INT32_MIN into 64-bit storage) *)
   Theorem mi_init_gen_u_correct T y :
-    sg St = false -> wf T -> tmin T < y <= tmax T -> Z.abs y <= tmax St -> residue p y (mi_init_gen_u_int St p T y).
+    sg St = false -> in_range T y -> - 2 ^ 63 < y < 2 ^ 63 -> Z.abs y <= tmax St -> residue p y (mi_init_gen_u_int St p T y).
   Proof.
-    destruct Hadm as [W [? ?]]. intros HsS WT Hy Ha. unfold mi_init_gen_u_int.
-    rewrite cabs_abs by (auto; lia). pose proof (tmin_le_tmax St W).
+    destruct Hadm as [W [? ?]]. intros HsS Hy H63 Ha. unfold mi_init_gen_u_int.
+    rewrite wabs_abs by (auto; intros E; unfold in_range, tmin in Hy; rewrite E in Hy; lia).
+    pose proof (tmin_le_tmax St W).
     rewrite (cast_id St (Z.abs y)) by (auto; lia).
     assert (in_range St (Z.abs y)) as Hin by (unfold in_range; lia).
     pose proof (mi_reduce_spec (Z.abs y) Hin) as HR.
@@ -149,15 +150,6 @@ Theorem mi_init_gen_s_same_width_refuted :
   exists St p y, admissible St p /\ in_range (unsigned_of St) y /\ ~ residue p y (mi_init_gen_s_int St p y).
 Proof.
   exists i32, 3, 2147483648. split; [|split].
-  - unfold admissible, wf; cbn; lia.
-  - unfold in_range; cbn; lia.
-  - unfold residue; intros [_ H]. vm_compute in H. discriminate H.
-Qed.
-(* int32_t source into 64-bit unsigned storage: -y overflows in int for INT32_MIN *)
-Theorem mi_init_gen_u_type_min_refuted :
-  exists p y, admissible u64 p /\ in_range i32 y /\ ~ residue p y (mi_init_gen_u_int u64 p i32 y).
-Proof.
-  exists 7, (-2147483648). split; [|split].
   - unfold admissible, wf; cbn; lia.
   - unfold in_range; cbn; lia.
   - unfold residue; intros [_ H]. vm_compute in H. discriminate H.
